@@ -60,9 +60,14 @@ def obligations(tier):
         for dk in DATA_KINDS:
             for mode in ('call', 'notif', 'batch0', 'batch1', 'batchn'):
                 obs.append({'h': 'app', 'data': dk, 'mode': mode, 'disp': d})
+            if d == 'async' and dk in ('absent', 'null', 'int'):
+                obs.append({'h': 'app', 'data': dk, 'mode': 'call', 'disp': d, 'plain': 1})
         for exc in EXC_TYPES:
             for mode in ('call', 'notif', 'batch0', 'batch1', 'batchn'):
                 obs.append({'h': 'exc', 'exc': exc, 'mode': mode, 'disp': d})
+            if d == 'async':       # the asynchronous dispatcher serving PLAIN (non-coroutine) functions
+                for mode in ('call', 'batch1'):
+                    obs.append({'h': 'exc', 'exc': exc, 'mode': mode, 'disp': d, 'plain': 1})
         for a, b in it.product(('absent', 'null', 'int', 'str', 'zero', 'list'), repeat=2):
             if a != b or a in ('int', 'list'):
                 obs.append({'h': 'app2', 'data': [a, b], 'disp': d})
@@ -244,7 +249,7 @@ def _our_response(out, wire, pos, rid, doc):
 def h_app(ob):
     def run(env):
         wire = Wire(env)
-        rig = Rig(env, ob['disp'], wire=wire, perr_data=ob['data'])
+        rig = Rig(env, ob['disp'], wire=wire, perr_data=ob['data'], plain_on_async=bool(ob.get('plain')))
         doc, pos, rid = _wrap(env, wire, ob['mode'], 'perr', {'k': env.int('k')})
         out = _dispatch(rig, wire.encode(doc))
         env.reached()
@@ -282,7 +287,7 @@ def _contains_marker(v):
 def h_exc(ob):
     def run(env):
         wire = Wire(env)
-        rig = Rig(env, ob['disp'], wire=wire, exc=ob['exc'])
+        rig = Rig(env, ob['disp'], wire=wire, exc=ob['exc'], plain_on_async=bool(ob.get('plain')))
         doc, pos, rid = _wrap(env, wire, ob['mode'], 'boom')
         out = _dispatch(rig, wire.encode(doc))
         env.reached()
